@@ -494,6 +494,12 @@ func assumptionsFor(prop string) []string {
 		"A4: assembly kernels satisfy the kernel contracts (not verified; Go fallbacks are)",
 		"A9: partial correctness; termination only where a decreases clause is given",
 		"A10: blas64/lapack64 use the default pure-Go implementation",
+		"A11: slice regions handed in by the caller (parameters, slices held by heap objects that exist at entry) have non-negative region identifiers, regions allocated during the call negative ones; pointers boxed in interface parameters refer to entry objects",
+		"A12: recursive spec functions are uninterpreted functions constrained by ground unfolding and footprint-frame instances; their well-formedness is an obligation (spec.wf), their reading as the defining sum/product is the reading of their text",
+		"A13: package sort is modelled (result ordered by the package's comparison; permutation of the input not tracked)",
+		"A14: arithmetic on float literals and math.Sqrt of a literal are evaluated with the IEEE 754 arithmetic of the machine running the verifier",
+		"A15: with option nan-axioms the IEEE rules for NaN results of + - * / are assumed for the otherwise uninterpreted operations",
+		"A16: functions declared trusted in the contract files (assembly kernels, fftpack transforms and initialisers, mat.offset) are assumed to satisfy their contracts; they are listed under coverage.trusted_no_body when a checked function of this property depends on them",
 	}
 }
 
